@@ -23,7 +23,7 @@ import (
 var c03Arity = map[string][2]int{
 	"alpine": {1, 5}, "alpm": {1, 5}, "conan": {1, 5}, "debian": {1, 5}, "gem": {1, 5}, "maven": {1, 5}, "pypi": {1, 5},
 	"rpm": {1, 5}, "gentoo": {1, 5}, "nuget": {1, 4}, "composer": {1, 4}, "cran": {2, 5},
-	"apache": {3, 3}, "cargo": {3, 3}, "github": {3, 3}, "golang": {3, 3}, "hex": {3, 3}, "mattermost": {3, 3}, "npm": {3, 3}, "semver": {3, 3},
+	"apache": {3, 3}, "cargo": {3, 3}, "github": {3, 3}, "golang": {3, 3}, "hex": {2, 3}, "mattermost": {3, 3}, "npm": {3, 3}, "semver": {3, 3},
 }
 
 var semPre = []string{"-alpha", "-alpha.1", "-rc.1", "-rc1", "-0", "-beta.2", "-x", "-ALPHA", "-RC.1", "-Beta2"}
@@ -146,6 +146,9 @@ func init() {
 			}
 			if c.Eco == "nuget" && kind == "post" && strings.Count(v, ".") != 2 {
 				return false, "nuget's fourth component needs a three-component base"
+			}
+			if c.Eco == "hex" && strings.Count(v, ".") != 2 {
+				return false, "hex accepts a pre-release part only on a three-component version"
 			}
 			base, err1 := e.NewVersion(v)
 			marked, err2 := e.NewVersion(v + m)
